@@ -45,10 +45,12 @@ TRUSTED = ["harness/run_C04.py (scenario -> script text, schedule derivation, ca
            "eval.py get_names is taken from the implementation (debug log) and cross-checked against the harness' "
            "syntactic name set"]
 
-ENTS = ["pyscript.x", "pyscript.y", "pyscript.z"]
-ATTRS = ["a1", "a2"]
-STATES = ["0", "1", "2", "on", "7"]
-AVALS = ["p", "q", "3"]
+# boundary values on purpose: entity / attribute names with underscores and digits in several domains; state values that
+# are empty, look like None / unknown / unavailable, numeric strings with spaces or leading zeros; an empty attribute value
+ENTS = ["pyscript.x", "sensor.y_1", "input_number.z2_a"]
+ATTRS = ["a1", "a_2"]
+STATES = ["0", "1", "2", "on", "7", "", "None", "unknown", "unavailable", " 3 ", "00"]
+AVALS = ["p", "q", "3", ""]
 
 
 # ------------------------------------------------------------------ expression grammar
@@ -75,10 +77,13 @@ def rnd_atom(rng, ents):
         return ["ne", n, lit]
     if k < 0.68:
         return ["eqn", n, rnd_name(rng, ents)]
-    if k < 0.78:
+    if k < 0.76:
         return ["isnone", n]
-    if k < 0.86:
-        return ["truthy", n]
+    if k < 0.87:
+        # the VALUE itself is the truth value (str / None, not bool), in three spellings
+        return ["truthy", n, rng.choice(["bool", "or", "and"])]
+    if k < 0.93:
+        return ["intnz", n]           # an int (0 / non-zero) as truth value; raises for non-numeric strings
     return ["intgt", n, rng.choice([0, 1, 2])]
 
 
@@ -95,7 +100,7 @@ def rnd_ex(rng, ents, depth=0):
 
 def ex_names(ex):
     op = ex[0]
-    if op in ("eq", "ne", "isnone", "truthy", "intgt"):
+    if op in ("eq", "ne", "isnone", "truthy", "intgt", "intnz"):
         return [ex[1]]
     if op == "eqn":
         return [ex[1], ex[2]]
@@ -120,7 +125,14 @@ def ex_src(ex, nm=dotted):
     if op == "isnone":
         return f"{nm(ex[1])} is None"
     if op == "truthy":
+        style = ex[2] if len(ex) > 2 else "bool"
+        if style == "or":
+            return f"({nm(ex[1])} or None)"
+        if style == "and":
+            return f"({nm(ex[1])} and {nm(ex[1])})"
         return f"bool({nm(ex[1])})"
+    if op == "intnz":
+        return f"int({nm(ex[1])})"
     if op == "intgt":
         return f"int({nm(ex[1])}) > {ex[2]}"
     if op == "and":
@@ -138,7 +150,7 @@ def ex_sx(ex):
         return [op, name_sx(ex[1]), ex[2]]
     if op == "eqn":
         return [op, name_sx(ex[1]), name_sx(ex[2])]
-    if op in ("isnone", "truthy"):
+    if op in ("isnone", "truthy", "intnz"):
         return [op, name_sx(ex[1])]
     if op == "intgt":
         return [op, name_sx(ex[1]), ex[2]]
@@ -205,6 +217,12 @@ def rnd_dec(rng, ents, fidx, didx):
         dec["kwargs"] = {"var_name": "ovr", "extra": "1"}
     elif k < 0.45:
         dec["kwargs"] = {"value": "v", "old_value": "o"}
+    elif k < 0.5:
+        dec["kwargs"] = {}                       # an empty dict is not "no kwargs"
+    elif k < 0.55:
+        dec["kwargs"] = {"extra": None, "trigger_type": None}    # None values (one colliding with an own argument)
+    if rng.random() < 0.15:
+        dec["xnone"] = True                      # spell the unset option out: watch=None (kwargs=None: see C04-F5)
     return dec
 
 
@@ -366,13 +384,15 @@ WITNESSES = [
 
 
 # ---- runs delayed by state_hold: which keyword arguments do they get?  (timing itself is C05's subject)
-HELD_HOLDS = [0, 0.5, 2]
+HELD_HOLDS = [0, 0.0, 2 ** -10, 0.5, 2]       # int 0, float 0.0, a very small positive hold (binary-exact, < 1 ms)
 HELD_KWARGS = [
     {"extra": "7"},                                        # a plain additional keyword
     {"var_name": "ovr"},                                   # collides with the trigger's own argument
     {"value": "v", "old_value": "o", "dec": "1"},          # two collisions and a plain name
     {"trigger_type": "tt", "extra": "1"},
     {"extra": "7", "var_name": "ovr", "value": "v"},
+    {},                                                    # empty dict
+    {"extra": None, "old_value": None},                    # None values, one colliding
 ]
 
 
@@ -454,6 +474,54 @@ def run_held(p):
         return {"crash": f"{type(e).__name__}: {e}"[:200]}
 
 
+# ---- kwargs=None spelled out (the documented default): finding C04-F5
+def make_kwnone_case(p):
+    p = {k: v for k, v in p.items() if not k.startswith("_")}
+    qs = [v == "1" for v in p["vals"]]
+    line = "C04 " + sx(["kwnone", "legacy" if p["legacy"] else "new", qs, list(range(1, len(qs) + 1))])
+    return Case(p, line, tags=["legacy" if p["legacy"] else "new", "bv:kwargs-explicit-None"])
+
+
+def kwnone_oracle(p):
+    """the documented behaviour: kwargs=None is the default, i.e. the same as no kwargs"""
+    return {"runs": [i + 1 for i, v in enumerate(p["vals"]) if v == "1"], "evals": len(p["vals"])}
+
+
+def run_kwnone(p):
+    from ha_env import run_ha
+    from homeassistant.core import Context
+    src = ("@state_trigger(\"pyscript.x == '1'\", kwargs=None)\n"
+           "def f0(**kw):\n"
+           "    rec('run', 0, kw)\n")
+    evals = []
+
+    async def body(env):
+        from custom_components.pyscript.eval import AstEval
+        orig = AstEval.eval
+
+        async def eval_tap(self, *a, **k):
+            if self.name.endswith("@state_trigger()"):
+                evals.append(self.name)
+            return await orig(self, *a, **k)
+
+        AstEval.eval = eval_tap
+        try:
+            env.write("t.py", src)
+            await env.reload()
+            for i, v in enumerate(p["vals"]):
+                env.hass.states.async_set("pyscript.x", v, {}, context=Context(id=f"c{i + 1}"))
+                await env.settle(0.01)
+            await env.settle(0.05)
+            return [canon_kw(r[3])[0] for r in env.records if r[1] == "run"]
+        finally:
+            AstEval.eval = orig
+
+    try:
+        return {"runs": run_ha({}, p["legacy"], body), "evals": len(evals)}
+    except Exception as e:  # pylint: disable=broad-except
+        return {"crash": f"{type(e).__name__}: {e}"[:200]}
+
+
 def gen_cases(rng, tier, search):
     n = 220 if tier == "quick" else 2500
     if search:
@@ -462,6 +530,9 @@ def gen_cases(rng, tier, search):
     for scn in WITNESSES:
         for legacy in (True, False):
             cases.append(make_case(json.loads(json.dumps(scn)), legacy))
+    for vals in (["0", "1", "0", "1"], ["1"], ["2", "0"]):
+        for legacy in (True, False):
+            cases.append(make_kwnone_case({"kind": "kwnone", "legacy": legacy, "vals": vals}))
     # kwargs of runs delayed by state_hold: every hold value x every kwargs shape, both subsystems
     for hold in HELD_HOLDS:
         for kw in HELD_KWARGS:
@@ -495,6 +566,8 @@ def script_src(scn):
                 parts.append("watch=" + ("{" + items + "}" if d.get("wtype") == "set" else "[" + items + "]"))
             if d["kwargs"] is not None:
                 parts.append("kwargs=" + repr(d["kwargs"]))
+            if d["watch"] is None and d.get("xnone"):
+                parts.append("watch=None")
             lines.append(f"@state_trigger({', '.join(parts)})")
         lines.append(f"def f{fi}(**kw):")
         lines.append(f"    rec('run', {fi}, kw)")
@@ -570,7 +643,57 @@ def make_case(scn, legacy):
             tags.append("kwargs")
     if any(len(f["decs"]) > 1 for f in scn["funcs"]):
         tags.append("stacked")
+    tags += sorted(boundary_tags(scn))
     return Case({"scn": scn, "legacy": legacy}, line, tags=tags)
+
+
+SPECIAL_STATES = {"", "None", "unknown", "unavailable", " 3 ", "00"}
+
+
+def boundary_tags(scn):
+    """which boundary-value categories a scenario exercises (counted in the evidence tag histogram)"""
+    t = set()
+
+    def walk(ex):
+        if ex[0] == "intnz" or (ex[0] == "truthy" and len(ex) > 2 and ex[2] != "bool"):
+            t.add("bv:nonbool-truth-value")
+        if ex[0] in ("eq", "ne") and ex[2] in SPECIAL_STATES:
+            t.add("bv:special-literal")
+        for sub in ex[1:]:
+            if isinstance(sub, list) and sub and isinstance(sub[0], str) and sub[0] in (
+                    "eq", "ne", "eqn", "isnone", "truthy", "intgt", "intnz", "and", "or", "not"):
+                walk(sub)
+    for _, d in decs_of(scn):
+        if d["kwargs"] == {}:
+            t.add("bv:kwargs-empty-dict")
+        if d["kwargs"] and any(v is None for v in d["kwargs"].values()):
+            t.add("bv:kwargs-None-value")
+        if d["kwargs"] and any(k in ("var_name", "value", "old_value", "trigger_type") for k in d["kwargs"]):
+            t.add("bv:kwargs-collide")
+        if d.get("xnone"):
+            t.add("bv:options-explicit-None")
+        for a in flat_args(d):
+            if a["k"] == "expr":
+                walk(a["ex"])
+    cur = {e: v for e, v in scn["pre"].items()}
+    for burst in scn["hist"]:
+        if len(burst) >= 3:
+            t.add("bv:burst-3rd-or-later-change")
+        for op in burst:
+            if op[0] == "set":
+                if op[2] in SPECIAL_STATES:
+                    t.add("bv:special-state-value")
+                if not op[3]:
+                    t.add("bv:empty-attribute-dict")
+                if "" in op[3].values():
+                    t.add("bv:empty-attribute-value")
+                prev = cur.get(op[1])
+                if prev and any(k not in op[3] for k in prev[1]):
+                    t.add("bv:attribute-removed")
+                cur[op[1]] = [op[2], op[3]]
+            else:
+                cur[op[1]] = None
+    return t
 
 
 # ------------------------------------------------------------------ running the real code
@@ -604,6 +727,8 @@ def run_one(payload):
     """returns the impl observation as a dict (or {'crash': ...})"""
     if payload.get("kind") == "held":
         return run_held(payload)
+    if payload.get("kind") == "kwnone":
+        return run_kwnone(payload)
     from ha_env import run_ha
     from homeassistant.core import Context
     scn, legacy = payload["scn"], payload["legacy"]
@@ -701,8 +826,8 @@ def run_impl(cases):
     warm()
     outs = common.pmap(run_one, [c.payload for c in cases], workers=8)
     for c, o in zip(cases, outs):
-        if c.payload.get("kind") == "held":
-            orc = held_oracle(c.payload)
+        if c.payload.get("kind") in ("held", "kwnone"):
+            orc = held_oracle(c.payload) if c.payload["kind"] == "held" else kwnone_oracle(c.payload)
             c.payload["_impl"] = o
             c.payload["_oracle"] = orc
             c.impl = json.dumps({"obs": o, "oracle": orc}, sort_keys=True)
@@ -865,6 +990,10 @@ def split(outline):
         return outline, json.dumps({"err": outline})
     p = parse_sx("(" + outline[3:] + ")")
     model, spec, diag = p[0][1], p[1][1], p[2][1]
+    if model and model[0] == "kwnone":
+        m = {"runs": [int(v) for v in model[1]], "evals": int(model[2])}
+        sp = {"runs": [int(v) for v in spec[1]], "evals": int(spec[2])}
+        return json.dumps({"held": True, "kw": True, "m": m, "s": sp}), json.dumps({"spec": sp, "diag": []})
     if model and model[0] == "held":
         def hruns(x):
             return [[int(r[0])] + [[kv[0], kv[1]] for kv in r[1:]] for r in x[1:]]
@@ -884,6 +1013,9 @@ def _finish_model(c):
     except (TypeError, ValueError):
         return
     if "m" not in ms:
+        return
+    if ms.get("kw"):
+        c.model = json.dumps({"obs": ms["m"], "oracle": ms["s"]}, sort_keys=True)
         return
     if ms.get("held"):
         c.model = json.dumps({"obs": {"runs": ms["m"]}, "oracle": {"runs": ms["s"]}}, sort_keys=True)
@@ -925,6 +1057,17 @@ def _diff(c):
     obs, orc = c.payload["_impl"], c.payload["_oracle"]
     if "crash" in obs:
         return [("unexplained", "harness-crash " + obs["crash"])]
+    if c.payload.get("kind") == "kwnone":
+        if obs == orc:
+            return []
+        # the known shape: nothing ever runs, legacy evaluates up to the first qualifying change, new never
+        first = next((i + 1 for i, v in enumerate(c.payload["vals"]) if v == "1"), len(c.payload["vals"]))
+        dead = {"runs": [], "evals": first if c.payload["legacy"] else 0}
+        if obs == dead and orc["runs"]:
+            return [("both:kwargs-explicit-None-kills-trigger", f"runs {obs['runs']} expected {orc['runs']}")]
+        if obs == dead:
+            return []       # nothing qualifies in this history: the dead trigger is not observable
+        return [("unexplained", f"kwargs=None: got {obs} expected {orc}")]
     if c.payload.get("kind") == "held":
         if obs["runs"] != orc["runs"]:
             return [("unexplained", f"held run kwargs: got {json.dumps(obs['runs'])[:300]} expected "
@@ -980,7 +1123,7 @@ def _diff(c):
     return out
 
 
-PRIORITY = ["unexplained", "both:unwatched-name-undefined-raises",
+PRIORITY = ["unexplained", "both:kwargs-explicit-None-kills-trigger", "both:unwatched-name-undefined-raises",
             "both:unbound-name-read-live-in-burst", "both:stacked-decorators-burst-order"]
 
 
@@ -1005,6 +1148,8 @@ def replay_cases(obj):
     p = obj["case"]
     if p.get("kind") == "held":
         return [make_held_case(p)]
+    if p.get("kind") == "kwnone":
+        return [make_kwnone_case(p)]
     return [make_case(p["scn"], p["legacy"])]
 
 
@@ -1019,7 +1164,7 @@ def _rerun(scn, legacy):
 
 def shrink(c, reason):
     """greedy: drop bursts, operations, functions, decorators while the same signature is reported"""
-    if c.payload.get("kind") == "held":
+    if c.payload.get("kind") in ("held", "kwnone"):
         return c
     sig = classify(c, reason)
     scn, legacy = json.loads(json.dumps(c.payload["scn"])), c.payload["legacy"]
@@ -1068,7 +1213,7 @@ def shrink(c, reason):
 
 def extra_coverage(cases):
     held = [c for c in cases if c.payload.get("kind") == "held"]
-    cases = [c for c in cases if c.payload.get("kind") != "held"]
+    cases = [c for c in cases if c.payload.get("kind") not in ("held", "kwnone")]
     n_runs = sum(len(f) - 1 for c in cases for f in c.payload.get("_oracle", {}).get("runs", []))
     n_evals = sum(sum(c.payload.get("_oracle", {}).get("evals", [])) for c in cases)
     n_deliv = sum(sum(c.payload.get("_oracle", {}).get("delivered", [])) for c in cases)
